@@ -68,6 +68,12 @@ pub fn sig_valid() -> Item {
 pub fn sig_valid2() -> Item {
     arr(vec![bwrap(&map(vec![(u(1), i(-7))])), map(vec![(u(4), b(b"11"))]), b(b"\xbb\xcc")])
 }
+pub fn sig_valid3() -> Item {
+    arr(vec![bwrap(&map(vec![(u(4), b(b"3"))])), map(vec![]), b(b"\x03")])
+}
+pub fn sig_valid4() -> Item {
+    arr(vec![b(b""), map(vec![(u(1), i(-8))]), b(b"\x04\x04")])
+}
 pub fn sig_bad_protected() -> Item {
     // protected content {4: h''}: empty kid
     arr(vec![bwrap(&map(vec![(u(4), b(b""))])), map(vec![]), b(b"\xaa")])
@@ -162,6 +168,8 @@ pub fn header_pairs() -> Vec<(Item, Item)> {
         sig_valid(),
         arr(vec![sig_valid()]),
         arr(vec![sig_valid(), sig_valid2()]),
+        arr(vec![sig_valid(), sig_valid2(), sig_valid3()]),
+        arr(vec![sig_valid3(), sig_valid(), sig_valid2(), sig_valid4()]),
         arr(vec![]),
         sig_bad_protected(),
         sig_bad_unprotected(),
